@@ -277,7 +277,25 @@ def sk_pretask(U, v, L):
     return G(p, [p, leaf, pre1, pre2], pre=[pre1, pre2])
 
 
+def sk_marker(U, v, L):
+    """Parameter-less nodes: as a value, as list members, as a pre-task"""
+    m, m2 = U.Marker(), U.Marker()
+    pre = U.NoArgPre()
+    t = U.Tagged(marker=m, markers=[m2, m] if v.bool() else [m2], x=v.int())
+    t.add_pretasks(pre)
+    return G(t, [t, m, m2, pre], pre=[pre])
+
+
+def sk_nestedcont(U, v, L):
+    """Configurations inside containers inside containers"""
+    a, b, c = U.Leaf(i=v.int()), U.Leaf(i=v.int()), U.Leaf(i=v.int())
+    bag = U.Bag(dl={"a": [a, b]}, lls=[[b], [c]], ld=[{"k1": c}])
+    return G(bag, [bag, a, b, c])
+
+
 SKELETONS = {
+    "marker": (sk_marker, 0),
+    "nestedcont": (sk_nestedcont, 0),
     "flat": (sk_flat, 1),
     "pair": (sk_pair, 2),
     "floats": (sk_floats, 0),
